@@ -20,7 +20,7 @@ from symtorch.scalar import XR, _bool, _real, is_sym, s_and, s_not, s_or
 from symtorch.tdict import TensorDict
 
 from . import core
-from .oracle import all_, any_
+from .oracle import all_, any_, pick
 
 TOL = [0.0]  # > 0 in concrete (replay) mode: comparisons of float32 data against real-arithmetic references
 
@@ -81,6 +81,7 @@ GENERATORS = {
     "cvrptw": ("rl4co.envs.routing.cvrptw.generator", "CVRPTWGenerator"), "mtvrp": ("rl4co.envs.routing.mtvrp.generator", "MTVRPGenerator"),
     "fjsp": ("rl4co.envs.scheduling.fjsp.generator", "FJSPGenerator"), "jssp": ("rl4co.envs.scheduling.jssp.generator", "JSSPGenerator"),
     "mdcpdp": ("rl4co.envs.routing.mdcpdp.generator", "MDCPDPGenerator"),
+    "dpp": ("rl4co.envs.eda.dpp.generator", "DPPGenerator"), "mdpp": ("rl4co.envs.eda.mdpp.generator", "MDPPGenerator"),
 }
 MTVRP_PRESETS = {"cvrp": "", "ovrp": "O", "vrpb": "B", "vrpl": "L", "vrptw": "TW", "ovrptw": "OTW", "ovrpb": "OB", "ovrpl": "OL", "vrpbl": "BL", "vrpbtw": "BTW", "vrpltw": "LTW",
                  "ovrpbl": "OBL", "ovrpbtw": "OBTW", "ovrpltw": "OLTW", "vrpbltw": "BLTW", "ovrpbltw": "OBLTW"}
@@ -88,6 +89,11 @@ MTVRP_PRESETS = {"cvrp": "", "ovrp": "O", "vrpb": "B", "vrpl": "L", "vrptw": "TW
 
 def make_generator(w, name, params):
     mod, cls = GENERATORS[name]
+    if name in ("dpp", "mdpp"):
+        # the constructors download / load chip data that only the reward needs: build the object bare, set what _generate reads
+        g = object.__new__(getattr(w.load(mod), cls))
+        g.__dict__.update(params)
+        return g
     return getattr(w.load(mod), cls)(**params)
 
 
@@ -231,6 +237,19 @@ def props(name, g, td, B, params):
               all_([(T.s_isfinite(td["time_windows"].a[b, j, 1]) if TW_ else s_and(T.s_isinf(td["time_windows"].a[b, j, 1]), eq(td["service_time"].a[b, j], 0))) for b in range(B) for j in range(1, td["time_windows"].shape[1])]))
             if not B_:
                 P(f"preset {preset}: no backhaul demand", all_([eq(x, 0) for x in _vals(td["demand_backhaul"])]))
+    elif name in ("dpp", "mdpp"):
+        cells = g.size * g.size
+        am = td["action_mask"].a
+        P("keys / shapes", _shape(td, "locs", (B, cells, 2)) and _shape(td, "action_mask", (B, cells), T.bool_) and "probe" in td.keys())
+        if name == "dpp":
+            pr = td["probe"].a
+            P("probing port within the grid and NOT available for a decap", all_([s_and(s_and(ge(pr[b, 0], 0), lt(pr[b, 0], cells)), s_not(pick(pr[b, 0], list(am[b])) if is_sym(pr[b, 0]) else am[b, int(pr[b, 0])])) for b in range(B)]))
+        else:
+            pr = td["probe"].a
+            P("every probing port is NOT available for a decap", all_([s_or(s_not(pr[b, c]), s_not(am[b, c])) for b in range(B) for c in range(cells)]))
+        blocked = [sum_int([s_not(am[b, c]) for c in range(cells)]) for b in range(B)]
+        extra = 1 + (g.num_probes_max - 1 if name == "mdpp" else 0)
+        P("number of blocked cells between 1 and probes + keep-outs, at least one cell stays free", all_([s_and(s_and(ge(x, 1), le(x, extra + max(g.num_keepout_max - 1, 0))), lt(x, cells)) for x in blocked]))
     elif name in ("fjsp", "jssp"):
         nj, nm = g.num_jobs, g.num_mas
         PT, pad = td["proc_times"].a, td["pad_mask"].a
